@@ -18,10 +18,10 @@ from props.c02_util import (X_dense, X_sparse, X_k, X_t, X_sum, shape_of, pdense
 
 PROP = "C02"
 LEVEL = "proof"
-GEN_UNITS = ["GenUtils", "GenUtils2"]   # Props/C02.v states C02_dimscheck_align / C02_ttv_dense_req / C02_ttm_dense_req over the generated tt_dimscheck,
+GEN_UNITS = ["GenUtils", "GenUtils2", "GenUtils3", "GenKernels", "GenKernels3", "GenMethods3"]   # Props/C02.v states C02_dimscheck_align / C02_ttv_dense_req / C02_ttm_dense_req over the generated tt_dimscheck,
                                         # C02_ttt_dense_req / C02_to_tenmat_req_* over the generated gather_wrap_dims
-COQ_TARGETS = ["Props/C02.vo", "Model/C02Harness.vo", "Model/Harness.vo"]
-THEOREM_FILES = ["Props/C02.v"]
+COQ_TARGETS = ["Props/C02.vo", "Model/C02Harness.vo", "Model/Harness.vo", "Props/W3C02.vo", "Props/W3C02b.vo", "Props/W3Methods3.vo"]
+THEOREM_FILES = ["Props/C02.v", "Props/W3C02.v", "Props/W3C02b.v", "Props/W3Methods3.v"]
 COQ_IMPORTS = ("From Coq Require Import List ZArith Bool Arith QArith Qcanon.\n"
                "From PV Require Import Base.Index Base.Perm Base.Sum Np.Array Model.Sparse Model.Repr Model.Harness "
                "Np.NpZ Np.NpZ2 Gen.GenUtils Gen.GenUtils2 Model.C02TenmatReq Model.C02DimsReq Model.C02Spec Model.C02Dense Model.C02Sparse Model.C02Modes Model.C02Kruskal Model.C02SpKernels Model.C02Absorb Model.C02Tenmat Model.C02SpMore Model.C02KruskalMore Model.C02Tucker Model.C02TuckerFull Model.C02Harness.\n")
